@@ -3,6 +3,7 @@ R1 Watcher.tla: events x dispatcher (blocks in wg.Go while every slot is taken) 
 TrackerExact, refinement of WatcherAbs, and under fairness Drains (the queue empties, the dispatcher is idle, every slot is
 free once fsnotify stops delivering). Negative control: the variant that re-submits a parked event with wg.Go from inside a
 worker must violate Drains. Design observation: NoLostUpdate fails (an event arriving while its file is loaded is dropped).
+R1' WatcherInd.tla (Apalache): TrackerExact / OneLoadPerFile as an inductive invariant - any number of events, 3 files, 3 slots.
 R2 -simulate: schedules of touches and callback completions; R3 the real onFileChanged on a temporary directory (real
 fsnotify, real errgroup, real tracker) with a gated callback that mutates a real MultiEpoch; R4 Trace_Watcher.
 Verdict: a callback that never returns or a lost probe is a violation (the watcher is wedged: no reload completes any more);
@@ -25,6 +26,8 @@ def run_watcher(ctx, q):
                         name="MC_Watcher_lost_update", timeout_s=900, expect_violation=True)
     ctx.extra["watch_lost_update_observation"] = ("an fsnotify event that arrives while its file is being loaded is dropped by the fileProcessingTracker: the content written last "
                                                   "may never be loaded (TLC counterexample to NoLostUpdate; design observation, not claimed)" if lost.violations else "NoLostUpdate held in the bounded model")
+    # unbounded in the number of events: TrackerExact / OneLoadPerFile as an inductive invariant (Apalache, typed companion module)
+    ctx.apalache_inductive("WatcherInd", cinit="CInit", name="WatcherInd", timeout_s=600)
     cases = []
     per = 20 if q else 400
     for slots in (1, 2, 3):
